@@ -1043,11 +1043,12 @@ Lemma group_go_seq fixed : forall c acc p, group_go fixed c acc = Ok p ->
 Proof.
   induction c as [|y r IH]; intros acc p H.
   - cbn in H. apply Ok_inj in H. subst p. exists []. cbn. rewrite !app_nil_r. repeat split.
-  - destruct y as [t a ch| |]; cbn [group_go] in H; fold (group_go fixed) in H; cbn [seq_results].
+  - destruct y as [t a ch| | |]; cbn [group_go] in H; fold (group_go fixed) in H; cbn [seq_results].
     + destruct (parse_node fixed (pr_fresh acc) (Elem t a ch)) as [q| |] eqn:E; cbn [bind] in H; try discriminate.
       destruct (IH _ _ H) as (rs & R1 & R2 & R3 & R4 & R5). cbn [pres_app pr_fresh pr_stored pr_ret pr_invs] in *.
       cbn [bind]. rewrite R1. cbn [bind]. exists (q :: rs). cbn [map List.concat fold_left].
       rewrite R2, R3, R4, R5, <- !app_assoc. repeat split.
+    + exact (IH _ _ H).
     + exact (IH _ _ H).
     + exact (IH _ _ H).
 Qed.
@@ -1087,13 +1088,14 @@ Lemma children_seq fixed : forall c fresh st rs, seq_results fixed fresh c = Ok 
 Proof.
   induction c as [|y r IH]; intros fresh st rs H.
   - cbn in H. apply Ok_inj in H. subst rs. cbn. rewrite app_nil_r. destruct st; reflexivity.
-  - destruct y as [t a ch| |]; cbn [seq_results parse_children] in *.
+  - destruct y as [t a ch| | |]; cbn [seq_results parse_children] in *.
     + destruct (parse_node fixed fresh (Elem t a ch)) as [q| |] eqn:E; cbn [bind] in *; try discriminate.
       destruct (seq_results fixed (pr_fresh q) r) as [qs| |] eqn:E2; cbn [bind] in H; try discriminate.
       apply Ok_inj in H. subst rs. cbn [map List.concat].
       rewrite (store_all_app (s_nodes st) (pr_stored q ++ pr_ret q)).
       destruct (store_all (s_nodes st) (pr_stored q ++ pr_ret q)) as [ns| |]; cbn [bind]; try reflexivity.
       rewrite (IH _ _ _ E2). cbn [s_nodes s_invs]. now rewrite <- app_assoc.
+    + exact (IH _ _ _ H).
     + exact (IH _ _ _ H).
     + exact (IH _ _ _ H).
 Qed.
